@@ -13,6 +13,10 @@ var collTyped = vkit.NewCollector("C17", "TestTypedChain", "typed chain V1->V2->
 
 var collConc = vkit.NewCollector("C17", "TestConcurrentReplays", "the graphs, failing edges and payloads of TestRawGraph with the event list stored 1, 4 or 12 times over; 2-8 goroutines, started together, each run ReplayWithUpcast over the whole log 1-4 times on one bus. Oracle: every callback of every replay sees exactly the model walk a replay running alone sees (type, composed trail), every replay delivers every stored event once, and the (mutex-protected) upcast error handler is called once per failing event per replay with the failing step's error. Non-trivial = some event has a walk of length >= 2.")
 
+var collDuring = vkit.NewCollector("C17", "TestClearDuringChain", "the graphs and payloads of TestRawGraph (no failing edges); while the replay is inside a drawn upcaster application (1st-12th of the run) another goroutine calls ClearUpcasts or ClearUpcastsForType(drawn type) and the upcaster gives it 5 ms to get in before returning. Oracle: events delivered before that point equal the model walk over the full registry; every later event equals the walk over the registry before the clear or the walk over the registry after it - never a chain resolved partly in one and partly in the other; the replay and the writer both return. Non-trivial = the clear was started inside a chain of >= 2 hops whose walk differs between the two registries.")
+
+func TestClearDuringChain(t *testing.T) { vkit.Check(t, collDuring, GenDuring, RunDuring) }
+
 func TestMain(m *testing.M) { vkit.Main(m) }
 
 func TestRawGraph(t *testing.T)   { vkit.Check(t, collRaw, Gen, Run) }
@@ -21,5 +25,5 @@ func TestConcurrentReplays(t *testing.T) { vkit.Check(t, collConc, GenConc, RunC
 
 func TestReplay(t *testing.T) {
 	r := vkit.NeedReplay(t)
-	_ = vkit.ReplayCase(t, r, collFuzz, Run) || vkit.ReplayCase(t, r, collRaw, Run) || vkit.ReplayCase(t, r, collTyped, RunTyped) || vkit.ReplayCase(t, r, collConc, RunConc)
+	_ = vkit.ReplayCase(t, r, collFuzz, Run) || vkit.ReplayCase(t, r, collRaw, Run) || vkit.ReplayCase(t, r, collTyped, RunTyped) || vkit.ReplayCase(t, r, collConc, RunConc) || vkit.ReplayCase(t, r, collDuring, RunDuring)
 }
